@@ -577,6 +577,27 @@ def assignments(rng, inputs, limit_bits=14, samples=400):
         yield {i: True for i in inputs}
 
 
+def targeted_assignments(call, inputs, limit_bits):
+    """for operands too wide for exhaustive evaluation: the near misses that random sampling never hits.
+    equal: the operand equal to the constant and every single-bit neighbour of it"""
+    if call[0] != 'equal' or len(inputs) <= limit_bits:
+        return
+    ops = call[1]
+    if any(o not in inputs for o in ops) or len(set(ops)) != len(ops):
+        return
+    num = call[2]
+    if not (0 <= num < (1 << len(ops))):
+        num = num % (1 << len(ops))
+    base = {i: False for i in inputs}
+    for j, o in enumerate(ops):                 # little-endian: operand j has weight 2^j (see dec())
+        base[o] = bool((num >> j) & 1)
+    yield dict(base)
+    for o in ops:
+        a = dict(base)
+        a[o] = not a[o]
+        yield a
+
+
 def spec(call, val):
     """the property text for one call under one evaluation `val` (label -> bool of the circuit
     AFTER the call); returns None or a failure message.  `val` is also used for the operands:
@@ -721,7 +742,7 @@ def oracle(case, rng=None, limit_bits=14):
     inputs = list(before['inputs'])
     old_labels = [k for k, _, _ in before['gates']]
     fullcall = list(call) + [lists]
-    for asg in assignments(rng, inputs, limit_bits):
+    for asg in itertools.chain(targeted_assignments(call, inputs, limit_bits), assignments(rng, inputs, limit_bits)):
         v0 = c0.evaluate_full_circuit(dict(asg))
         v1 = c.evaluate_full_circuit(dict(asg))
         for l in old_labels:
